@@ -30,8 +30,9 @@ _Bool g_out_consumed;
 char *ares_buf_finish_str(ares_buf_t *buf, size_t *len)
 __CPROVER_requires(__CPROVER_rw_ok(buf, sizeof(*buf)) && len == NULL && !g_out_consumed)
 __CPROVER_assigns(__CPROVER_object_whole(buf), g_out_consumed)
-__CPROVER_ensures(__CPROVER_return_value != NULL ==> (__CPROVER_is_fresh(__CPROVER_return_value, 1) && g_out_consumed))
-__CPROVER_ensures(__CPROVER_return_value == NULL ==> !g_out_consumed)
+__CPROVER_ensures(__CPROVER_return_value != NULL ==> __CPROVER_is_fresh(__CPROVER_return_value, 1))
+/* the handle is invalidated on EVERY outcome (buf.finish_oom): a caller that destroys it after a failed finish frees it twice */
+__CPROVER_ensures(g_out_consumed)
 ;
 void ares_buf_destroy(ares_buf_t *buf)
 __CPROVER_requires(buf == NULL || (__CPROVER_rw_ok(buf, sizeof(*buf)) && !g_out_consumed))
